@@ -177,7 +177,25 @@ class World:
     # -- ops
     def apply(self, op):
         kind = op['op']
-        getattr(self, 'op_' + kind)(op)
+        try:
+            getattr(self, 'op_' + kind)(op)
+        except simkit.HarnessError:
+            raise
+        except Exception as err:  # pylint: disable=broad-except
+            # The ops make the calls the Loader makes for the same event.  An
+            # exception raised by the scheduler's own code there (its
+            # assertions included) is the code under test failing - the
+            # master would die handling the event - not a harness error.
+            import traceback
+            frames = traceback.extract_tb(err.__traceback__)
+            own = [f for f in frames
+                   if '/treadmill/' in f.filename or '/verif/' in f.filename]
+            if not own or '/treadmill/' not in own[-1].filename or \
+                    '/verif/' in own[-1].filename:
+                raise
+            self.fail('%s:exception-in-op:%s:%s' % (self.prop, kind,
+                                                    type(err).__name__),
+                      '%r at %s:%s' % (err, own[-1].name, own[-1].line))
 
     def op_alloc(self, op, create=False):
         path = tuple(op['path'])
